@@ -188,6 +188,21 @@ func Panics(f func()) (p bool) {
 	return false
 }
 
+var fsRoot string
+
+// FSRoot is the directory harnesses keep their files under: a fresh temporary directory in a native
+// run (removed when the replay ends), "/memfs" of the in-memory file system under symgo.
+func FSRoot() string {
+	if fsRoot == "" {
+		d, err := os.MkdirTemp("", "verif-fs-")
+		if err != nil {
+			panic("zzverifrt: " + err.Error())
+		}
+		fsRoot = d
+	}
+	return fsRoot
+}
+
 // RunReplay runs the entry named in the replay file and prints one result line:
 //   VERIF-RESULT ok | assert-fail <label> | assume-fail | panic <message>
 func RunReplay(entries map[string]func()) {
@@ -197,6 +212,11 @@ func RunReplay(entries map[string]func()) {
 		fmt.Printf("VERIF-RESULT error unknown entry %q\n", r.Entry)
 		return
 	}
+	defer func() {
+		if fsRoot != "" {
+			os.RemoveAll(fsRoot)
+		}
+	}()
 	defer func() {
 		if x := recover(); x != nil {
 			if s, ok := x.(Stop); ok {
